@@ -20,13 +20,20 @@ Methods  == <<"none", "zlib", "bzip2">>
 Encs     == <<"plain", "enc", "fix">>
 \* length classes relative to the sector size S
 LenCls   == <<"0", "1", "7", "S-1", "S", "S+1", "S+S/2", "2S", "2S+9", "3S+5">>
-Contents == <<"text", "random", "run", "mixed">>
+\* "edge": first unit = text + just enough random bytes that its zlib stream is exactly one byte shorter than the
+\* unit (method byte + stream = raw size: must be stored raw); direction 2 treats it like "mixed"
+Contents == <<"text", "random", "run", "mixed", "edge">>
 Units    == <<"auto", "sectored", "auto", "single", "auto">>
 \* names: with and without directories, mixed case, a dot-less one, a long path
-NamePool == << "a.txt", "Data\\File01.bin", "README", "Interface\\Glue\\MainMenu.blp",
-               "World\\Maps\\Azeroth\\Azeroth_32_48.adt", "x", "Sound\\Music\\ZoneMusic.MP3",
-               "DBFilesClient\\Spell.dbc", "patch-notes.TXT", "Textures\\Minimap\\md5translate.trs",
-               "units\\human\\Footman.mdx" >>
+\* Non-ASCII names are written with %XX escapes of their UTF-8 bytes (decoded by the drivers): the published hash
+\* folds ASCII a-z only and hashes every other byte verbatim, so names with non-ASCII lower-case letters
+\* (2-, 3- and 4-byte code points, lower- and upper-case forms) separate it from any Unicode-aware case folding.
+\*   caf\xE9.txt   \xFF   \xDF.dat   \u0130stanbul\\\u1E01\U00010428.bin   CAF\xC9.TTF   ma\xF1ana\\\xFCber.wmo
+NamePool == << "a.txt", "Interface\\Glue\\caf%C3%A9.txt", "Data\\File01.bin", "README", "%C3%BF",
+               "Interface\\Glue\\MainMenu.blp", "World\\Maps\\Azeroth\\Azeroth_32_48.adt", "%C3%9F.dat", "x",
+               "Sound\\Music\\ZoneMusic.MP3", "%C4%B0stanbul\\%E1%B8%81%F0%90%90%A8.bin", "DBFilesClient\\Spell.dbc",
+               "patch-notes.TXT", "Fonts\\CAF%C3%89.TTF", "Textures\\Minimap\\md5translate.trs",
+               "World\\ma%C3%B1ana\\%C3%BCber.wmo", "units\\human\\Footman.mdx" >>
 FilesPerArchive == <<6, 4, 3, 2>>            \* by shift 0..3: keeps archives below ~16 KB
 
 Nth(sq, q) == sq[(q % Len(sq)) + 1]
@@ -46,7 +53,7 @@ FileOf(dir, q, slot, arch, shift) ==
       table == meth # "none" /\ lc # "0" /\ (unit = "sectored" \/ (unit = "auto" /\ lc \in BigLen))
       plainname == dir = 2 /\ enc # "plain" /\ table /\ qq % 8 # 0
   IN  [ name |-> IF plainname THEN "EncFile" \o ToString(slot) \o ".Dat"
-                 ELSE Nth(NamePool, arch * 5 + slot + Seed),       \* distinct within an archive (slot < 11)
+                 ELSE Nth(NamePool, arch * 5 + slot + Seed),       \* distinct within an archive (slot < 17)
         meth |-> meth, enc |-> enc, lc |-> lc,
         cc   |-> Nth(Contents, qq + (qq \div 90) + arch),
         unit |-> unit,
